@@ -209,8 +209,33 @@ def _current():
 class OsProxy:
     """Stands in for the module `os` inside psyclone.psyGen."""
 
+    # other name-space operations a (future) implementation of the protocol
+    # may use: also yield points, results passed through unchanged
+    OTHER_YIELDING = ("link", "rename", "replace", "unlink", "remove",
+                      "symlink", "fsync")
+
     def __getattr__(self, name):
-        return getattr(_real_os, name)
+        real = getattr(_real_os, name)
+        if name not in self.OTHER_YIELDING:
+            return real
+
+        def yielding(*args, **kwargs):
+            sched, run = _current()
+            if run is None:
+                return real(*args, **kwargs)
+            base = _real_os.path.basename(str(args[-1])) if args else ""
+            run.yield_point("os." + name, base)
+            try:
+                res = real(*args, **kwargs)
+            except OSError as err:
+                sched.trace.append([run.id, "os." + name, base,
+                                    type(err).__name__])
+                raise
+            sched.trace.append([run.id, "os." + name, base, "ok"])
+            if name in ("link", "rename", "replace", "symlink"):
+                run.created.append(base)    # the run made this name appear
+            return res
+        return yielding
 
     @staticmethod
     def open(path, flags, mode=0o777, **kwargs):
@@ -243,7 +268,7 @@ class OsProxy:
         owner = sched.open_fds.get(fdesc)
         base = owner[1] if owner else f"<fd {fdesc}>"
         run.yield_point("os.write", base)
-        if owner is None or owner[0] != run.id:
+        if owner is not None and owner[0] != run.id:
             sched.fd_errors.append(f"run {run.id} writes to descriptor "
                                    f"{fdesc} owned by {owner}")
         nbytes = _real_os.write(fdesc, data)
@@ -262,7 +287,7 @@ class OsProxy:
         owner = sched.open_fds.get(fdesc)
         base = owner[1] if owner else f"<fd {fdesc}>"
         run.yield_point("os.close", base)
-        if owner is None or owner[0] != run.id:
+        if owner is not None and owner[0] != run.id:
             sched.fd_errors.append(f"run {run.id} closes descriptor "
                                    f"{fdesc} owned by {owner}")
         res = _real_os.close(fdesc)
